@@ -348,6 +348,49 @@ def correspond(ctx, scale):
                 if badk:
                     failures.append({'key': f'{cname}:call-options:non-finite:{badk[0].split("/")[0]}', 'what': f'{cname} train={train} {callzoo.label(v)} (input scale {[0.0, 1e-30, 1.0, 1e4][vi % 4]}): non-finite values in {badk[:4]}',
                                      'case': dict(module=cname, variant=v, train=train)})
+    # target indices with IGNORED entries (round 10, seed C18-j): the layer's cross-entropy uses ignore_index = -1, so a caller may supervise only some
+    # positions or only some HEADS (the other heads' targets all -1).  As long as one target is valid the loss is a mean over the valid ones: finite.
+    from vector_quantize_pytorch import RandomProjectionQuantizer
+    ig_cfgs = [('vq-heads2-shared', lambda: VectorQuantize(dim=4, codebook_size=6, heads=2, codebook_dim=2), 4, 2),
+               ('vq-heads3-separate-cosine', lambda: VectorQuantize(dim=6, codebook_size=5, heads=3, codebook_dim=2, separate_codebook_per_head=True, use_cosine_sim=True), 6, 3),
+               ('vq-heads2-ce-commit', lambda: VectorQuantize(dim=4, codebook_size=6, heads=2, codebook_dim=2, commitment_use_cross_entropy_loss=True), 4, 2),
+               ('vq-single-head', lambda: VectorQuantize(dim=3, codebook_size=6), 3, 1),
+               ('rpq-2-codebooks', lambda: RandomProjectionQuantizer(dim=5, codebook_size=6, codebook_dim=3, num_codebooks=2), 5, 2),
+               ('rvq-2-layers', lambda: ResidualVQ(dim=3, num_quantizers=2, codebook_size=6), 3, -2)]
+    for gi, (gname, gmk, gdim, gheads) in enumerate(ig_cfgs):
+        for pat in ('one-head-ignored', 'last-head-only', 'some-positions-ignored', 'one-valid-target'):
+            for sc_i, sc in enumerate((0.0, 1.0, 1e4)):
+                for train in (True, False):
+                    try:
+                        mod = gmk()
+                        mod.train(train)
+                        nh = abs(gheads)
+                        x = torch.randn(2, 5, gdim) * sc
+                        tgt = torch.randint(0, 5, (2, 5, nh))
+                        if pat == 'one-head-ignored':
+                            tgt[..., 0] = -1
+                        elif pat == 'last-head-only':
+                            tgt[..., :-1] = -1
+                        elif pat == 'some-positions-ignored':
+                            tgt[:, 1::2, :] = -1
+                        else:
+                            tgt[...] = -1
+                            tgt[1, 2, nh - 1] = 3
+                        if nh == 1:
+                            tgt = tgt[..., 0]
+                            if not bool((tgt >= 0).any()):
+                                continue
+                        if gname.startswith('rpq'):
+                            loss = mod(x, indices=tgt)
+                        else:
+                            loss = mod(x, indices=tgt)[1]
+                    except Exception:
+                        continue
+                    ev += 1
+                    dist['ignored_target_calls'] = dist.get('ignored_target_calls', 0) + 1
+                    if not bool(torch.isfinite(loss).all()):
+                        failures.append({'key': f'{gname}:ignored-targets:{pat}:non-finite-loss', 'what': f'{gname} train={train} input scale {sc}: indices= with pattern {pat} (-1 = the layer\'s ignore_index, at least one valid target) gives loss {loss.reshape(-1)[:4].tolist()}',
+                                         'case': dict(module=gname, pattern=pat, train=train, scale=sc)})
     return {'evaluations': ev, 'distinct_nontrivial': nt,
             'rule': '12 adversarial input families (zeros, 1e-30, 1e-12, 1e4, constants, one-hot, identical rows, mixed scales 1e-20..1e4, rows equal / antipodal to codes, single token) x 28 module configurations (cosine normalisation, rotation trick, k-means with empty clusters, '
                     'expiry, dead codes with decay 0, extreme LFQ temperature, FSQ saturation, stochastic sampling, learnable + orthogonal) x multi-step train / eval histories: isfinite over outputs, losses, input gradients and state_dict; non-trivial = degenerate family',
